@@ -266,7 +266,7 @@ func executeC18(s *Schedule, kf *KnownFindings, verbose bool) (*Runner, error) {
 		case rb.exportFlagSet && strings.HasSuffix(a.Name, "/end") && subset("staking", "balances", "validators"):
 			cls = "lockstep-diverged:pending-rebalance-not-exported"
 		// a lost second source can only show when a slash walks the per-source index
-		case rb.exportMerged && (strings.HasSuffix(a.Name, "/begin") || strings.Contains(a.Name, "/slash")) && subset("positions", "validators", "balances", "queries", "staking"):
+		case rb.exportMerged && (strings.HasSuffix(a.Name, "/begin") || strings.Contains(a.Name, "/slash")) && subset("positions", "validators", "balances", "queries", "staking", "assets"):
 			cls = "lockstep-diverged:merged-redelegation-record"
 		}
 		rb.BlockIdx, rb.StepName = blockOfStep(a.Name), a.Name
